@@ -182,15 +182,11 @@ class Categorize(Factory, Container):
 
     @inheritdoc(Container)
     def __iadd__(self, other):
-        if isinstance(other, Categorize):
-            self.entries += other.entries
-            for k in self.keySet.union(other.keySet):
-                if k in self.bins and k in other.bins:
-                    self.bins[k] += other.bins[k]
-                elif k not in self.bins and k in other.bins:
-                    self.bins[k] = other.bins[k].copy()
-            return self
-        raise ContainerException(f"cannot add {self.name} and {other.name}")
+        # merge with + first: it raises, leaving both operands untouched, if anything is incompatible
+        both = self + other
+        self.entries = both.entries
+        self.bins = both.bins
+        return self
 
     @inheritdoc(Container)
     def __mul__(self, factor):
